@@ -1,7 +1,7 @@
 import Dashu.Model.Cross.Ord
 /-
   C14 — the oracles the driver instantiates (both are proved to satisfy the enclosure hypothesis
-  in `Proofs/Cross/Oracle.lean`), and the input classes of the recorded defects.
+  in `Proofs/Cross/OracleSound.lean`).
 
   * `coarse`     : bounds from bit lengths only — never materialises `B^e`
                    (`bitLen s - 1 + e·lb ≤ log2|s·B^e| ≤ bitLen s + e·ub` for `e ≥ 0`, where
@@ -48,61 +48,5 @@ def Oracle.coarse : Oracle :=
 def Oracle.noFilter : Oracle :=
   { nat := fun _ => (.ninf, .pinf), flt := fun _ _ _ => (.ninf, .pinf), rat := fun _ _ => (.ninf, .pinf),
     digitsUb := fun _ s => bitLen s.natAbs + 1 }
-
--- ============================================================ recorded defect classes
-
-def Kind.isZero : Kind → Bool
-  | .nat n => n == 0
-  | .int i => i == 0
-  | .flt _ s e _ => fIsZero s e
-  | .rat _ n _ => n == 0
-  | .pf _ _ => false
-
-/-- DEFECT A (`num_partial_cmp` of 0 against a small positive f32/f64): the bit-length shortcut
-    `other_bits < 0 → Greater` (integer), `lb > other_log2 → Greater` (float, rational) fires for a
-    zero left operand.  `k` is the big-number side, `(man, exp)` the decoded float. -/
-def defectA (k : Kind) (man exp : Int) : Bool :=
-  k.isZero && decide (man > 0) &&
-    (match k with
-     | .rat _ _ _ => decide ((bitLen man.natAbs : Int) + exp - 1 < -2)
-     | _ => decide ((bitLen man.natAbs : Int) + exp < 0))
-
-/-- DEFECT F (`NumOrd<f32/f64> for IBig`, step 2 `Some(-sign * Ordering::Less)`): an IBig against
-    an infinity of its own sign. -/
-def defectF (k : Kind) (neg : Bool) : Bool :=
-  match k with
-  | .int i => (decide (i < 0)) == neg
-  | _ => false
-
-def numCmpDefect1 (k : Kind) (d : Decoded) : Option String :=
-  match d with
-  | .fin man exp => if defectA k man exp then some "zero-vs-tiny-float" else none
-  | .inf neg => if defectF k neg then some "ibig-vs-inf" else none
-  | .nan => none
-
-def numCmpDefectK : Kind → Kind → Option String
-  | .pf _ _, .pf _ _ => none
-  | .pf _ d, k => numCmpDefect1 k d
-  | k, .pf _ d => numCmpDefect1 k d
-  | _, _ => none
-
-def numCmpDefect (x y : Num) : Option String := numCmpDefectK x.kind y.kind
-
-/-- DEFECT B (`AbsOrd` between FBig and UBig/IBig): float/src/cmp.rs `repr_cmp_ubig::<ABS = true>`
-    / `repr_cmp_ibig::<ABS = true>` compare signed values in the exact step. -/
-def absCmpDefect1 (s e : Int) (k : Kind) : Option String :=
-  if fIsInf s e then none else
-  match k with
-  | .nat _ => if s < 0 then some "float-abs-negative" else none
-  | .int r => if s < 0 || r < 0 then some "float-abs-negative" else none
-  | _ => none
-
-def absCmpDefectK : Kind → Kind → Option String
-  | .flt _ _ _ _, .flt _ _ _ _ => none
-  | .flt _ s e _, k => absCmpDefect1 s e k
-  | k, .flt _ s e _ => absCmpDefect1 s e k
-  | _, _ => none
-
-def absCmpDefect (x y : Num) : Option String := absCmpDefectK x.kind y.kind
 
 end Dashu.Model.Cross
